@@ -330,31 +330,78 @@ func searchOracles(h lib.History, impl []string, opts fsGenOpts) *lib.Mismatch {
 			return ms[0]
 		}
 	}
-	// the kernel oracle runs as the administrator, on clean absolute paths, through one view
-	for _, l := range h {
-		f := strings.Fields(l)
-		if len(f) < 3 || f[1] == "new" || f[2] == "dump" {
-			continue
-		}
-		if f[1] != "0" || f[2] == "setuser" || f[2] == "sub" || f[2] == "setumask" {
-			return nil
-		}
-		for _, x := range f[3:] {
-			if strings.HasPrefix(x, "2f") || strings.HasPrefix(x, "2e") || x == "-" {
-				pth := lib.UnHex(x)
-				if f[2] == "symlink" && x == f[3] {
-					continue
-				}
-				if pth == "" || pth[0] != '/' || filepath.Clean(pth) != pth || pth == "/" {
-					return nil
+	// the kernel oracle: clean absolute paths, one view; the root is never the operand of remove / rename
+	admissible := func(h lib.History) bool {
+		for _, l := range h {
+			f := strings.Fields(l)
+			if len(f) < 3 || f[1] == "new" || f[2] == "dump" {
+				continue
+			}
+			if f[1] != "0" || f[2] == "sub" {
+				return false
+			}
+			for _, x := range f[3:] {
+				if strings.HasPrefix(x, "2f") || strings.HasPrefix(x, "2e") || x == "-" {
+					pth := lib.UnHex(x)
+					if f[2] == "symlink" && x == f[3] {
+						continue
+					}
+					if pth == "" || pth[0] != '/' || filepath.Clean(pth) != pth {
+						return false
+					}
+					if pth == "/" && (f[2] == "remove" || f[2] == "removeall" || f[2] == "rename" || f[2] == "link" || f[2] == "mkdirtemp" || f[2] == "createtemp") {
+						return false
+					}
 				}
 			}
 		}
+		return true
 	}
-	l, a, b := runBoth(h)
-	if d := lib.FirstDiff(a, b); d >= 0 {
-		return &lib.Mismatch{Kind: "known", Class: kernelClass(l, a, b, d), What: fmt.Sprintf("MemFS and the Linux kernel disagree at %q: MemFS %q, kernel %q", l[d], trunc(a[d]), trunc(b[d])),
-			History: l, Impl: a, Expected: b, Index: d}
+	try := func(h lib.History) *lib.Mismatch {
+		if !admissible(h) {
+			return nil
+		}
+		l, a, b := runBoth(h)
+		if d := lib.FirstDiff(a, b); d >= 0 {
+			cls := kernelClass(l, a, b, d)
+			if ledgerKnown(cls) {
+				return nil // a recorded divergence explains nothing new
+			}
+			return &lib.Mismatch{Kind: "known", Class: cls, What: fmt.Sprintf("MemFS and the Linux kernel disagree at %q: MemFS %q, kernel %q", l[d], trunc(a[d]), trunc(b[d])),
+				History: l, Impl: a, Expected: b, Index: d}
+		}
+		return nil
+	}
+	if m := try(h); m != nil {
+		return m
+	}
+	// neighbourhood: the same state, the operands of the last call, other calls (a defect in the path walk or in a
+	// permission check shows through read-only calls even when the call that exposed it has no kernel counterpart)
+	last := -1
+	for i := len(h) - 1; i > 0; i-- {
+		if !strings.HasSuffix(h[i], " dump") {
+			last = i
+			break
+		}
+	}
+	if last > 0 {
+		f := strings.Fields(h[last])
+		var ops []string
+		for _, x := range f[3:] {
+			if strings.HasPrefix(x, "2f") {
+				ops = append(ops, x)
+			}
+		}
+		pre := strings.Join(f[:2], " ")
+		for _, x := range ops {
+			for _, v := range []string{"stat " + x, "lstat " + x, "readdir " + x, "openfile " + x + " 0 0", "readfile " + x, "chmod " + x + " 493", "readlink " + x, "truncate " + x + " 0", "mkdir " + x + " 493", "chdir " + x} {
+				hv := append(append(lib.History{}, h[:last]...), pre+" "+v)
+				if m := try(hv); m != nil {
+					m.What = "found next to the model/implementation disagreement at " + h[last] + ": " + m.What
+					return m
+				}
+			}
+		}
 	}
 	return nil
 }
